@@ -48,13 +48,13 @@ def run(c):
     big = c.pick([0, 0, 100, 5000, 70000], [0, 0, 100, 5000, 70000, 1 << 20])
     g = _txncfg.gen(c, "c", MaxStores=2, MaxTxns=5, MaxOps=c.pick(40, 90), Keys=c.pick(30, 60), Slots=[2, 3, 4, 5, 7, 8, 9, 24, 64, 500], Neighbour=True, ClearL2=20,
                     BigValues=big, DupStores=True)
-    seq = txnlib.run_driver(c, binp, "seq", _txncfg.cfg(c, "seq", c.pick(40, 300), g, child=c.pick(3, 2)), timeout=c.pick(900, 3000))
+    seq = txnlib.run_driver(c, binp, "seq", _txncfg.cfg(c, "seq", c.pick(40, 200), g, child=c.pick(3, 2)), timeout=c.pick(900, 6000))
     classes = txnlib.validate_skipping(c, seq, "TxnStoreTrace.cfg", classify)
     nb = 0
-    if not c.quick:
-        gb = _txncfg.gen(c, "d", MaxTxns=3, Slots=[4, 8, 24, 64], Bulk=400, Placements=["node", "segment"])
+    if True:   # bulk loads: the quick tier runs one program on the slot length where nodes get many children
+        gb = _txncfg.gen(c, "d", MaxTxns=3, Slots=c.pick([24], [4, 8, 24, 64]), Bulk=400, Placements=["node", "segment"])
         os.environ["VERIF_MAXTIME_MS"] = "8000"
-        bulk = txnlib.run_driver(c, binp, "seq", _txncfg.cfg(c, "bulk", 8, gb, child=1), timeout=3000)
+        bulk = txnlib.run_driver(c, binp, "seq", _txncfg.cfg(c, "bulk", c.pick(1, 8), gb, child=1), timeout=3000)
         os.environ.pop("VERIF_MAXTIME_MS")
         classes += txnlib.validate_skipping(c, bulk, "TxnStoreTrace.cfg", classify, chunk=2)
         nb = len(bulk)
